@@ -5,7 +5,7 @@
    centre selection of MockTwoDResponseCalculator.calculate_pathway with the calculator's four separate defaults.
    Executable definitions only.  Model/C12.v's [mkpath] is the closed form of a run of this machine
    (Proofs/C12obj.v); the static tie (harness/translate_c12.py) regenerates the programs and the steps from the source. *)
-From Coq Require Import ZArith List Bool String.
+From Coq Require Import ZArith List Bool String QArith Qcanon Qabs.
 From QV Require Import Base.Alg Base.Util Model.C19 Model.C12.
 Import ListNotations.
 
@@ -168,12 +168,74 @@ Section X.
     Variable neg : R -> bool.
     Variables dwx dwy dgx dgy : R.            (* self.widthx, self.widthy, self.dephx, self.dephy *)
     Definition sel4 (d c x : R) : R := if neg c then d else x.
-    (* the pinned code tests widths[3] when it selects dephy *)
-    Definition contrib4 (gauss : bool) (FM : vec3) (p : pway) : R :=
+    (* what is handed to the line-shape function: Gaussian?, first axis negated?, centre 1, width 1, centre 3, width 3;
+       the pinned code tests widths[3] when it selects dephy *)
+    Definition calc_args4 (gauss : bool) (p : pway) : bool * bool * R * R * R * R :=
       let cen1 := nth 0 (pw_freq p) 0 in
       let cen3 := nth (List.length (pw_freq p) - 2)%nat (pw_freq p) 0 in
       let wx := sel4 dwx (pw_w1 p) (pw_w1 p) in let wy := sel4 dwy (pw_w3 p) (pw_w3 p) in
       let gx := sel4 dgx (pw_g1 p) (pw_g1 p) in let gy := sel4 dgy (pw_w3 p) (pw_g3 p) in
-      pref FM p * (if gauss then L true (pw_reph p) cen1 wx cen3 wy else L false (pw_reph p) cen1 gx cen3 gy).
+      if gauss then (true, pw_reph p, cen1, wx, cen3, wy) else (false, pw_reph p, cen1, gx, cen3, gy).
+    Definition contrib4 (gauss : bool) (FM : vec3) (p : pway) : R :=
+      let '(ga, fl, c1, w1, c3, w3) := calc_args4 gauss p in pref FM p * L ga fl c1 w1 c3 w3.
   End Calc4.
 End X.
+
+(* ---------------------------------------------------------------------------------- *)
+(*  executable instance over the Gaussian rationals for the correspondence check       *)
+(* ---------------------------------------------------------------------------------- *)
+Local Open Scope Q_scope.
+(* what the harness reads of a real liouville_pathway object after a program of calls that did not raise *)
+Record oobj := mkOobj {
+  oo_cur : nat * nat; oo_nint : nat; oo_nrel : nat; oo_ne : nat;
+  oo_trans : list (nat * nat); oo_sides : list Z; oo_dm : list (list Q); oo_freq : list Q;
+  oo_wd : option (list Q * list Q); oo_evf : Q * Q;
+  oo_built : option (list Q * Z * (Q * Q))      (* after build() and orientational_averaging(): F4n, sign, pref *)
+}.
+Definition v_close (tol : Q) (v : @vec3 GQ) (l : list Q) : bool := all2 (rclose tol) [vx v; vy v; vz v] l.
+Definition lp_agrees (tol : Q) (Sy : @sys GQ) (FM : @vec3 GQ) (l : @lp GQ) (o : oobj) : bool :=
+  let c := l_call l in
+  pair_eqb (l_cur l) (oo_cur o) && Nat.eqb (l_nint l) (oo_nint o) && Nat.eqb (l_nrel l) (oo_nrel o) && Nat.eqb (l_ne l) (oo_ne o) &&
+  Nat.eqb (List.length (oo_trans o)) (S (c_order c)) && Nat.eqb (List.length (oo_freq o)) (nslots c) &&
+  all2 pair_eqb (map (l_trans l) (seq 0 (S (c_order c)))) (oo_trans o) &&
+  all2 Z.eqb (map (l_sides l) (seq 0 (S (c_order c)))) (oo_sides o) &&
+  all2 (v_close tol) (map (l_dm l) (seq 0 (S (c_order c)))) (oo_dm o) &&
+  all2 (rclose tol) (map (l_freq l) (seq 0 (nslots c))) (oo_freq o) &&
+  match l_wd l, oo_wd o with
+  | None, None => true
+  | Some wg, Some ow => all2 (rclose tol) (map (fst wg) (seq 0 4)) (fst ow) && all2 (rclose tol) (map (snd wg) (seq 0 4)) (snd ow)
+  | _, _ => false
+  end &&
+  gclose tol (l_evf l) (oo_evf o) &&
+  match oo_built o with
+  | None => true
+  | Some (f4, sg, pf) =>
+      let F := F4 (l_dm l 0%nat) (l_dm l 1%nat) (l_dm l 2%nat) (l_dm l 3%nat) in
+      let s := z2r (l_sides l 0%nat * l_sides l 1%nat * l_sides l 2%nat * l_sides l 3%nat)%Z in
+      v_close tol F f4 && gq_eqb s (r2 (inject_Z sg)) &&
+      gclose tol (rmul GQ (rmul GQ s (rmul GQ (dot FM F) (rho Sy (snd (l_trans l 0%nat))))) (l_evf l)) pf &&
+      match lp_obs Sy l with
+      | Some p => v_close tol (pw_F4n p) f4 && gq_eqb (pw_sign p) (r2 (inject_Z sg)) && gclose tol (pref FM p) pf
+      | None => match l_wd l with None => true | Some _ => false end
+      end
+  end.
+(* a case: observed system (only HH, DD, rho0 matter), polarisations, constructor call, program, outcome (None = raised) *)
+Definition xocase := (obs * list (list Q) * xcall * list (@xop GQ) * option oobj)%type.
+Definition xocase_agrees (tol : Q) (c : xocase) : bool :=
+  let '(o, es, call, ops, res) := c in
+  let FM := lab_FM th30 (v2 (nth 0%nat es [])) (v2 (nth 1%nat es [])) (v2 (nth 2%nat es [])) (v2 (nth 3%nat es [])) in
+  match xrun (sys_of o) (lp_new call) ops, res with
+  | None, None => true
+  | Some l, Some oo => lp_agrees tol (sys_of o) FM l oo
+  | _, _ => false
+  end.
+
+(* calculate_pathway: what reaches the line-shape function.  A case: frequency array, widths[1], widths[3], dephs[1],
+   dephs[3], rephasing?, Gaussian?, the four defaults, and the observed (Gaussian?, axis negated?, cen1, w1, cen3, w3) *)
+Definition gq_neg (x : GQ) : bool := negb (Qle_bool 0 (this (fst x))).
+Definition selcase := (list Q * (Q * Q * Q * Q) * bool * bool * (Q * Q * Q * Q) * (bool * bool * Q * Q * Q * Q))%type.
+Definition selcase_agrees (tol : Q) (c : selcase) : bool :=
+  let '(fr, (w1, w3, g1, g3), reph, gauss, (dwx, dwy, dgx, dgy), (oga, ofl, oc1, ow1, oc3, ow3)) := c in
+  let p := mkPw R1g reph [] (r1 GQ) vzero (map r2 fr) (r2 w1) (r2 w3) (r2 g1) (r2 g3) (r1 GQ) (r1 GQ) true in
+  let '(ga, fl, c1, a1, c3, a3) := calc_args4 gq_neg (r2 dwx) (r2 dwy) (r2 dgx) (r2 dgy) gauss p in
+  Bool.eqb ga oga && Bool.eqb fl ofl && rclose tol c1 oc1 && rclose tol a1 ow1 && rclose tol c3 oc3 && rclose tol a3 ow3.
